@@ -220,3 +220,36 @@ func HarnessC19Recover() {
 	vQuiesce()
 	vAssert(vThreadsLive() <= 0, "c19:close-leaves-no-goroutine-behind")
 }
+
+// HarnessC19InProcSend: over the in-process transport, a send after the peer has gone away fails (it
+// never "succeeds" into the dropped session), whether or not envelopes queued by the peer are still
+// unread; what the peer queued before going away is still delivered, then the receive side reports
+// the loss.
+func HarnessC19InProcSend() {
+	cl, sv := newInProcessTransportPair("a", 2)
+	ctx, cancel := context.WithTimeout(context.Background(), 100*time.Millisecond)
+	defer cancel()
+	queued := nondetRange("unread", 0, 2)
+	var sent []envelope
+	for i := 0; i < queued; i++ {
+		e := vhEnvelopeOfKind(0, []string{"q0", "q1"}[i])
+		vAssume(sv.Send(ctx, e) == nil)
+		sent = append(sent, e)
+	}
+	if nondetBool("server-closes") {
+		_ = sv.Close()
+	} else {
+		_ = cl.Close()
+	}
+	vReach("c19:inproc-peer-gone")
+	err := cl.Send(ctx, vhEnvelopeOfKind(0, "late"))
+	vAssert(err != nil, "c19:inproc-send-after-the-loss-fails")
+	vAssert(len(sv.envChan) == 0, "c19:inproc-nothing-is-queued-for-the-dropped-session")
+	for i := 0; i < queued; i++ {
+		e, rerr := cl.Receive(ctx)
+		vAssert(rerr == nil && e == sent[i], "c19:inproc-queued-envelopes-are-still-delivered")
+	}
+	_, rerr := cl.Receive(ctx)
+	vAssert(rerr != nil, "c19:inproc-receive-reports-the-loss")
+	vAssert(!cl.Connected(), "c19:inproc-transport-reports-disconnected-once-drained")
+}
